@@ -234,6 +234,7 @@ type Ctx struct {
 	rulesRun     []string
 	premiseCheck func(o *Obligation, premises []string) (bool, string)
 	seen         map[string]bool
+	inlineDepth  int
 	TrustedBase  []string
 }
 
